@@ -1,7 +1,7 @@
 (* C18 property theorems added in phase 3 (the C18 engineer's part of coq/C16; the earlier C18 theorems are in Properties.v).
    Nothing but statements closed by `exact`, each followed by Print Assumptions. *)
 From Coq Require Import String List.
-From C16 Require Import ObjModel RaceFree RaceFreeDisjoint RaceFreeValues.
+From C16 Require Import ObjModel RaceFree RaceFreeDisjoint RaceFreeValues RaceFreeAtomic.
 From C16.gen Require Import RaceFreeGen.
 
 (* disjoint footprints: every thread stays inside its region A i and no other thread writes into it (thread-private elements,
@@ -25,6 +25,11 @@ Theorem C18_read_only_is_disjoint : forall loc op reads writes ts,
 Proof. exact read_only_confined. Qed.
 Print Assumptions C18_read_only_is_disjoint.
 
+(* the converse: two different threads containing operations with a conflicting footprint race in EVERY interleaving *)
+Theorem C18_conflict_always_races : forall loc op reads writes, ConflictAlwaysRaces_stmt loc op reads writes.
+Proof. exact conflict_always_races. Qed.
+Print Assumptions C18_conflict_always_races.
+
 (* independent values: calls accepted by the decider (no static written) on objects owned by the calling thread *)
 Theorem C18_values_accepted_no_static_write : forall ops n, accepted ops n = true -> static_writes ops n = nil.
 Proof. exact accepted_no_static_write. Qed.
@@ -41,13 +46,31 @@ Print Assumptions C18_values_concurrent.
 Theorem C18_values_example_satisfiable : Example_independent_stmt.     Proof. exact example_independent. Qed.
 Print Assumptions C18_values_example_satisfiable.
 
+(* an operation that writes a static races, in every interleaving, with any operation of another thread that touches it *)
+Theorem C18_static_writer_races : StaticWriterRaces_stmt.              Proof. exact static_writer_races. Qed.
+Print Assumptions C18_static_writer_races.
+
 (* a constructor that switches a process-wide mode around one step and restores it: sequentially invisible, a race and a wrong
    result for a thread that only adds its own numbers *)
 Theorem C18_mode_switch_refuted : ModeSwitch_refuted_stmt.              Proof. exact mode_switch_refuted. Qed.
 Print Assumptions C18_mode_switch_refuted.
+
+(* the atomic reference count of shared tables (Modular<Log16>): in every interleaving of the threads' copy-construct / destroy
+   steps the final count is the initial count + increments - decrements of all threads; back to the initial value when balanced *)
+Theorem C18_atomic_counter : AtomicCounter_stmt.                         Proof. exact atomic_counter. Qed.
+Print Assumptions C18_atomic_counter.
+Theorem C18_atomic_counter_balanced : AtomicCounterBalanced_stmt.        Proof. exact atomic_counter_balanced. Qed.
+Print Assumptions C18_atomic_counter_balanced.
+Theorem C18_atomic_example_satisfiable : AtomicExample_stmt.             Proof. exact atomic_example. Qed.
+Print Assumptions C18_atomic_example_satisfiable.
 
 (* the decisions on the description generated from the current source (RaceFreeGen.v) *)
 Theorem C18_decided_values_writers : Decide_values_stmt.                Proof. exact decide_values. Qed.
 Print Assumptions C18_decided_values_writers.
 Theorem C18_decided_values_offenders : Decide_values_offenders_stmt.    Proof. exact decide_values_offenders. Qed.
 Print Assumptions C18_decided_values_offenders.
+(* ... hence every operation of the current source that is not a documented writer satisfies the hypothesis of C18_values_concurrent *)
+Theorem C18_offenders_nil_accepted : OffendersNilAccepted_stmt.         Proof. exact offenders_nil_accepted. Qed.
+Print Assumptions C18_offenders_nil_accepted.
+Theorem C18_source_operations_accepted : SourceOperationsAccepted_stmt. Proof. exact source_operations_accepted. Qed.
+Print Assumptions C18_source_operations_accepted.
